@@ -11,6 +11,9 @@ CHECKS = {
  "C02": ("panic / stack-overflow / hook step-budget monitor on syntax::parse over the C01 space plus depth-256 nesting towers and unterminated-construct splices",
          "Exploration: same input space as C01 plus 8 tower shapes at every depth 1..256 on the 2 MiB stack the server uses and unterminated constructs at every token boundary; non-progress is decided by the step-counter hook (no wall clock), linear work by steps <= K*(lexer tokens+1) with a fixed K, error well-formedness per SyntaxError.",
          "step hook sits at Lexer::next_token, ParserBase::{lex,start_node,start_node_at,error}; a loop touching none of them would only show as a CPU-budget violation", "5/C02"),
+ "C10": ("differential monitor of LineIndex/to_proto::position/from_proto::position against an independent reference mapper, exhaustive small-scope strings + random texts",
+         "Exploration, exhaustive on its small scope: every string of length <=5 (thorough <=6) over a 9-character alphabet (ASCII, space, LF, CR, 2/3/4-byte characters, FF, U+2028) x every char-boundary offset x every (line, column<=width+1), plus random long texts and corpus files in LF and CRLF form. Each conversion is compared with refpos.rs and round-tripped.",
+         "refpos.rs (written from the LSP specification) is trusted; positions beyond the last line or splitting a surrogate pair are not demanded", "5/C10"),
 }
 NOT_YET = "check under construction in this session; not claimed yet"
 
